@@ -1040,7 +1040,14 @@ def create_timepoints(base_priors, n_points=21):
 
 
 def fill_priors(
-    node_parameters, timepoints, ts, population_size, *, prior_distr, progress=False
+    node_parameters,
+    timepoints,
+    ts,
+    population_size,
+    *,
+    prior_distr,
+    progress=False,
+    natural_timepoints=None,
 ):
     """
     Take the alpha and beta values from the node_parameters array, which contains
@@ -1049,7 +1056,10 @@ def fill_priors(
     gamma or lognormal distribution with those parameters.
 
     The `population_size` can be a scalar, or an object with a `.to_natural_timescale`
-    method used to map from coalescent to generational timescale.
+    method used to map from coalescent to generational timescale. If the
+    timepoints are already known on the generational timescale (e.g. because
+    the user specified them) they can be given as `natural_timepoints`, which
+    avoids a lossy round trip through the coalescent timescale.
 
     TODO - what if there is an internal fixed node? Should we truncate
 
@@ -1071,10 +1081,12 @@ def fill_priors(
     datable_nodes = np.where(datable_nodes)[0]
 
     # convert timepoints to generational timescale
+    if natural_timepoints is None:
+        natural_timepoints = population_size.to_natural_timescale(timepoints)
     prior_times = node_time_class.NodeTimeValues(
         ts.num_nodes,
         datable_nodes[np.argsort(ts.nodes_time[datable_nodes])].astype(np.int32),
-        population_size.to_natural_timescale(timepoints),
+        natural_timepoints,
     )
 
     # TO DO - this can probably be done in an single numpy step rather than a for loop
@@ -1153,6 +1165,7 @@ class MixturePrior:
         elif isinstance(population_size, (int, float, np.ndarray)):
             population_size = demography.PopulationSizeHistory(population_size)
 
+        natural_timepoints = None
         if isinstance(timepoints, int):
             if timepoints < 2:
                 raise ValueError("You must have at least 2 time points")
@@ -1173,7 +1186,8 @@ class MixturePrior:
             elif np.any(np.unique(timepoints, return_counts=True)[1] > 1):
                 raise ValueError("Timepoints cannot have duplicate values")
             # timepoints are assumed to be on generational scale, so convert to
-            # coalescent timescale to evaluate prior
+            # coalescent timescale to evaluate prior (but keep the user's grid)
+            natural_timepoints = timepoints
             timepoints = population_size.to_coalescent_timescale(timepoints)
         else:
             raise ValueError("time_slices must be an integer or a numpy array of floats")
@@ -1186,6 +1200,7 @@ class MixturePrior:
             population_size,
             prior_distr=self.prior_distribution,
             progress=progress,
+            natural_timepoints=natural_timepoints,
         )
         return priors
 
